@@ -266,8 +266,6 @@ Arguments build {F} fcal e m order banks.
 Arguments loop {F} fcal e m s banks.
 Arguments step {F} fcal e m s b.
 Arguments step_wire {F} fcal e m nm ws nb nc d.
-Arguments step_pad g nb d.
-Arguments step_trg ts d.
 Arguments group_loop {F} fcal e m s gs.
 Arguments step_group {F} fcal e m s cs.
 Arguments chan_loop {F} fcal e m p s l.
